@@ -312,5 +312,10 @@ func check(c arith.Case, st *core.Stats) error {
 	return nil
 }
 
-func TestC02(t *testing.T)       { core.Run(t, "C02", genCase, check) }
-func TestC02Replay(t *testing.T) { core.Replay(t, "C02", check) }
+func TestC02(t *testing.T)       { core.Run(t, "C02", genCase, checkDiff) }
+func TestC02Replay(t *testing.T) { core.Replay(t, "C02", checkDiffAll) }
+
+// the model check followed by the differential comparison with Python's decimal module
+// (one case in 2 during the search, every case on replay)
+var checkDiff = arith.WithDifferential(check, arith.DiffOpts{Flags: true}, 2)
+var checkDiffAll = arith.WithDifferential(check, arith.DiffOpts{Flags: true}, 1)
